@@ -299,7 +299,7 @@ func ValueString(r *rand.Rand, class string) string {
 	case "markup":
 		return pick(r, []string{`<admin>`, `a&b`, `"quoted"`, `it's`, `</saml:NameID><saml:NameID>evil`, `]]>`, `<!--x-->`, `&amp;`, `&#x41;`, `a<b>c&d"e'f`, `<![CDATA[x]]>`, `<?pi?>`,
 			// text that spells XML / HTML constructs a byte-level scan might mistake for the real thing
-			`<!DOCTYPE html><html>`, `<!ENTITY x "y">`, `<?xml version="1.0" encoding="UTF-16"?>`, `<!DOCTYPE`, `<script>alert(1)</script>`, `&copy;&reg&lt`, `xmlns:ds="urn:x"`, `<ds:Signature>`, `<saml:Assertion ID="x">`})
+			`a<b]]>c`, `]]><x>&`, `<![CDATA[a]]>]]>`, `<!DOCTYPE html><html>`, `<!ENTITY x "y">`, `<?xml version="1.0" encoding="UTF-16"?>`, `<!DOCTYPE`, `<script>alert(1)</script>`, `&copy;&reg&lt`, `xmlns:ds="urn:x"`, `<ds:Signature>`, `<saml:Assertion ID="x">`})
 	case "space":
 		return pick(r, []string{" lead", "trail ", " both ", "in ner", "tab\there", "line\nfeed", "  two  spaces  ", "\tt\t", "\n", " "})
 	case "cr":
